@@ -38,7 +38,7 @@ def main():
             rec["checks"] = {}
             for c in order:
                 t0 = time.time()
-                rc3, o3 = sh(f"./check {c} quick 2>&1 | grep -E -A1 '^(OK|VIOLATION|INCONCLUSIVE) ' | head -3", cwd=VERIF)
+                rc3, o3 = sh(f"./check {c} quick 2>&1 | grep -a -E -A1 '^(OK|VIOLATION|INCONCLUSIVE)[ :]' | head -3", cwd=VERIF)
                 v = "VIOLATION" if "VIOLATION property=" in o3 else ("OK" if "OK property=" in o3 else "OTHER")
                 rec["checks"][c] = {"verdict": v, "s": round(time.time() - t0, 1), "line": " ".join(o3.strip().split("\n")[1:2])[:200]}
                 if v == "VIOLATION": break
